@@ -117,6 +117,41 @@ template <class T> static T *build_keyed(int kp, const cls_t &c, const uint8_t *
     return o;
 }
 
+/* set_key on an object that already carries a nonce or is in the middle of a session: "set_key leaves the nonce as it is"
+ * (aead.h), so the next packet must be the C function under the NEW key and the nonce the object had reached.  A control
+ * object that is keyed with the final key from the start decides whether a mismatch is set_key's doing (C17) or a nonce
+ * problem that the control shows as well (C14 territory, not reported here). */
+template <class T> static void rekey_probe(const cls_t &c)
+{
+    uint8_t k1[20], k2[20], n0[16], ni[16], m[40], ad[9];
+    size_t mlen = 1 + rng_below(R, 39), adlen = rng_below(R, 10), cl = 0;
+    int how = (int)rng_below(R, 3);            /* 0: nonce, then the first set_key; 1: key, nonce, re-key; 2: key, nonce, one packet, re-key */
+    int zero_len = c.kind != KIND_ISAP && rng_below(R, 4) == 0;   /* re-key with set_key(ptr, 0) = all-zero key */
+    rng_bytes(R, k1, 20); rng_bytes(R, k2, 20); rng_bytes(R, n0, 16); rng_bytes(R, m, sizeof(m)); rng_bytes(R, ad, sizeof(ad));
+    for (int i = 4; i < 8; ++i) if (!n0[i]) n0[i] = 0x3c;
+    if (zero_len) memset(k2, 0, 20);
+    uint8_t got[2][56], exp[56], first[56];
+    for (int ctl = 0; ctl < 2; ++ctl) {         /* ctl == 1: control object keyed with k2 from the start */
+        T *o = new T();
+        unsigned adv = 0;
+        if (ctl) { if (zero_len) o->set_key(k2, 0); else o->set_key(k2, c.klen); o->set_nonce(n0, 16); if (how == 2) { o->encrypt(first, m, mlen, ad, adlen); adv = 1; } }
+        else {
+            if (how == 0) o->set_nonce(n0, 16);
+            else { o->set_key(k1, c.klen); o->set_nonce(n0, 16); if (how == 2) { o->encrypt(first, m, mlen, ad, adlen); adv = 1; } }
+            if (zero_len) o->set_key(k2, 0); else o->set_key(k2, c.klen);
+        }
+        o->encrypt(got[ctl], m, mlen, ad, adlen);
+        if (!ctl) { memcpy(ni, n0, 16); ref_nonce_add(ni, adv); }
+        delete o;
+    }
+    c.enc(exp, &cl, m, mlen, ad, adlen, ni, k2);
+    vf_count("rekey_probes", 1);
+    vf_distinct("cpp|%s|rekey-probe-%d%s", c.name, how, zero_len ? "-zero" : "");
+    if (memcmp(got[0], exp, mlen + 16) != 0 && memcmp(got[1], exp, mlen + 16) == 0)
+        viol("C17", c, "set_key-on-a-live-object", how == 0 ? "nonce-then-set_key" : how == 1 ? "key-nonce-rekey" : "rekey-mid-session",
+             "\"mlen\":%zu,\"adlen\":%zu,\"zero_length_key\":%d,\"n0\":\"%s\",\"got\":\"%s\",\"exp\":\"%s\"", mlen, adlen, zero_len, vf_h(n0, 16), vf_h(got[0], mlen + 16), vf_h(exp, mlen + 16));
+}
+
 template <class T> static void session(uint64_t idx)
 {
     const cls_t &c = traits<T>::info();
@@ -250,13 +285,18 @@ template <class T> static void session(uint64_t idx)
     if (idx % 499 == 1) vf_sample("\"class\":\"%s\",\"keying\":\"%s\",\"ops\":%u,\"n0\":\"%s\"", c.name, kp_name[kp], nops, vf_h(n0, 16));
     /* isap: save_key of the object equals the reference pre-computed key */
     if (c.kind == KIND_ISAP) {
+        /* C17: what the C++ save_key returns must be what the C save_key returns for the same key (the saved format itself
+           is not judged here) */
         uint8_t expk[80];
         save_if_isap(o, saved);
-        ref_isap_precompute(c.v, expk, eff);
-        if (memcmp(saved, expk, 80)) viol("C17", c, "save_key", kp_name[kp], "\"saved\":\"%s\"", vf_h(saved, 80));
+        if (c.v == 0) { ascon128_isap_aead_key_t pk; ascon128_isap_aead_init(&pk, eff); ascon128_isap_aead_save_key(&pk, expk); ascon128_isap_aead_free(&pk); }
+        else if (c.v == 1) { ascon128a_isap_aead_key_t pk; ascon128a_isap_aead_init(&pk, eff); ascon128a_isap_aead_save_key(&pk, expk); ascon128a_isap_aead_free(&pk); }
+        else { ascon80pq_isap_aead_key_t pk; ascon80pq_isap_aead_init(&pk, eff); ascon80pq_isap_aead_save_key(&pk, expk); ascon80pq_isap_aead_free(&pk); }
+        if (memcmp(saved, expk, 80)) viol("C17", c, "save_key", kp_name[kp], "\"saved\":\"%s\",\"c_saved\":\"%s\"", vf_h(saved, 80), vf_h(expk, 80));
     }
     if (rng_below(R, 2)) o->clear();
     delete o;
+    if (rng_below(R, 3) == 0) rekey_probe<T>(c);
 }
 
 /* ---------------------------------------------------------------- hash / xof classes */
